@@ -4,6 +4,8 @@
  * modes: short   all byte strings of length 0..3 (exhaustive), cursors 0,1,7
  *        long    lengths 8..11, every value in the last three positions over fixed prefixes
  *        enc     encode/decode all v < 2^21, 2^k, 2^k +/- 1, random 64-bit
+ *        beyond  cursor already past the limit (a caller that skipped a declared size without checking it): must fail without
+ *                touching memory; the decoder's pointer then lies inside the inaccessible page
  *        sample  prints "hex cursor -> ok val consumed" lines for a PRNG sample (cross-checked in Python)
  *
  * Buffer convention of the real callers: the decoder receives ptr = buf+cursor,
@@ -214,6 +216,30 @@ int main(int argc, char **argv) {
                     }
                 }
             }
+    } else if(!strcmp(mode, "beyond")) {
+        static const long over[] = {1, 2, 9, 10, 11, 100, 4000};
+        for(int limit = 0; limit <= 12; limit++)
+            for(unsigned oi = 0; oi < sizeof(over) / sizeof(over[0]); oi++)
+                for(int f = 0; f < 2; f++) {
+                    if((limit * 14 + (int)oi * 2 + f) % nsh != shard) continue;
+                    char *buf = page + pagesz - limit;
+                    memset(buf, 0x85, limit);            /* every byte a complete one-byte number: a decoder that looks finds one */
+                    size_t length = limit + over[oi], val = 0;
+                    int ival = 0, rc = -1;
+                    n_dec++;
+                    in_call = 1;
+                    if(sigsetjmp(jb, 1) == 0) {
+                        rc = f ? compint_to_int(zck, &ival, buf + length, &length, limit) : compint_to_size(zck, &val, buf + length, &length, limit);
+                        in_call = 0;
+                        if(rc) { n_ok++; report("accepted-with-cursor-past-limit", (unsigned char *)buf, limit, (int)(limit + over[oi]), f, f ? (unsigned long long)ival : val, length); }
+                        else n_fail++;
+                    } else {
+                        in_call = 0;
+                        n_fault++;
+                        report("read-past-end-of-buffer", (unsigned char *)buf, limit, (int)(limit + over[oi]), f, 0, 0);
+                    }
+                    reset_err();
+                }
     } else if(!strcmp(mode, "enc")) {
         for(unsigned long long v = shard; v < (1ULL << 21); v += nsh) enc_one(v);
         if(shard == 0) {
